@@ -350,6 +350,7 @@ impl Exec<'_> {
         let fs = real.final_size();
         self.rec.out(0x0b5, len, cons);
         self.rec.out(total, fs.unwrap_or(u64::MAX), 0);
+        self.rec.note(|| format!("[len {len}, consumed {cons}, total_received {total}, final_size {fs:?}]"));
         if cons != m.cursor {
             return self.rec.fail("C16.reasm.consumed_len", kind, format!("consumed_len()={cons}, model cursor={}", m.cursor));
         }
@@ -693,6 +694,9 @@ pub fn execute(h: &History, trace: bool) -> Outcome {
         // final drain: everything contiguous must come out, each byte once
         if !e.rec.failed() {
             e.rec.cur = h.ops.len();
+            if e.rec.trace_on {
+                e.rec.trace.push("(final drain: pop until empty)".into());
+            }
             let mut guard = 0;
             while e.real.len() > 0 && !e.rec.failed() && guard < 100_000 {
                 let before = e.real.len() as u64;
